@@ -23,6 +23,14 @@ def lit(kind, v):
     return zlit(v) if kind == "int" else coq_str(v)
 
 
+def biglist(items, chunk=1000):
+    """A Coq list literal; long ones are cut into ++-joined pieces (a literal of 10^5 conses overflows coqc's stack)."""
+    items = list(items)
+    if len(items) <= chunk:
+        return "[%s]" % "; ".join(items)
+    return "(" + " ++ ".join("[%s]" % "; ".join(items[i:i + chunk]) for i in range(0, len(items), chunk)) + ")"
+
+
 def check(run):
     fails = vlib.standard_prelude(run, UNITS, "c19")
     broken = []          # names of ties / theorems that no longer check
@@ -157,7 +165,7 @@ def check(run):
                 lines.append("Definition dom_%s : list Z := zrange (Z.to_nat %d) 0." % (name, d["size"]))
             else:
                 ty = "Z" if d["tkind"] == "int" else "string"
-                lines.append("Definition dom_%s : list %s := [%s]." % (name, ty, "; ".join(lit(d["tkind"], v) for v in d["values"])))
+                lines.append("Definition dom_%s : list %s := %s." % (name, ty, biglist(lit(d["tkind"], v) for v in d["values"])))
         cases = []
         for (tname, mname, arg), r in sorted(meth.items(), key=lambda kv: (kv[0][0], kv[0][1], str(kv[0][2]))):
             kind = tk[tname]
@@ -170,11 +178,11 @@ def check(run):
                 call += " " + lit(tk[r["argtype"]], arg)
             pred = call if r["result"] == "bool" else "negb (str_contains_q (%s))" % call
             cid = "%s.%s%s" % (tname, mname, "(" + arg + ")" if arg is not None else "")
-            cases.append('(%s, %s (filter (fun x => %s) %s) [%s])' % (coq_str(cid), eqb, pred, dom, "; ".join(lit(kind, v) for v in r["positive"])))
+            cases.append('(%s, %s (filter (fun x => %s) %s) %s)' % (coq_str(cid), eqb, pred, dom, biglist(lit(kind, v) for v in r["positive"])))
             corr_cases += r["first"]
         for n, vals in chkdom.items():
             k0 = tk[checkparams[n][0]]
-            lines.append("Definition cdom_%s : list %s := [%s]." % (n, "Z" if k0 == "int" else "string", "; ".join(lit(k0, v) for v in vals)))
+            lines.append("Definition cdom_%s : list %s := %s." % (n, "Z" if k0 == "int" else "string", biglist(lit(k0, v) for v in vals)))
         for r in recs:
             if r["kind"] != "check":
                 continue
@@ -184,21 +192,32 @@ def check(run):
             if r.get("arg") is not None:
                 call += " " + lit(tk[r["params"][1]], r["arg"])
             cid = "%s%s" % (r["name"], "(," + r["arg"] + ")" if r.get("arg") else "")
-            cases.append('(%s, %s (filter (fun x => is_ok (%s)) cdom_%s) [%s])' % (
-                coq_str(cid), eqb, call, r["name"], "; ".join(lit(k0, v) for v in r["positive"])))
+            cases.append('(%s, %s (filter (fun x => is_ok (%s)) cdom_%s) %s)' % (
+                coq_str(cid), eqb, call, r["name"], biglist(lit(k0, v) for v in r["positive"])))
             corr_cases += len(chkdom[r["name"]])
-        lines.append("Definition cases : list (string * bool) := [\n  %s]." % ";\n  ".join(cases))
-        lines.append("Definition mism := Eval vm_compute in map fst (filter (fun c => negb (snd c)) cases).")
-        lines.append("Print mism.")
-        rc, out = vlib.coq_eval("Cases_C19", "\n".join(lines) + "\n")
-        if rc != 0:
-            broken.append("correspondence file for C19 does not evaluate: " + out[-500:])
-        else:
+        # the cases are independent: evaluate them in parallel shards (the thorough tier has millions of evaluations)
+        from concurrent.futures import ThreadPoolExecutor
+        nshard = 1 if len(cases) < 40 or run.tier == "quick" else 8
+        shards = [cases[i::nshard] for i in range(nshard)]
+
+        def one(i):
+            ls = list(lines)
+            ls.append("Definition cases : list (string * bool) := [\n  %s]." % ";\n  ".join(shards[i]))
+            ls.append("Definition mism := Eval vm_compute in map fst (filter (fun c => negb (snd c)) cases).")
+            ls.append("Print mism.")
+            return vlib.coq_eval("Cases_C19" if nshard == 1 else "Cases_C19_%d" % i, "\n".join(ls) + "\n", timeout=3000)
+
+        with ThreadPoolExecutor(max_workers=min(nshard, 4)) as ex:      # each shard needs several GB
+            results = list(ex.map(one, range(nshard)))
+        mism = []
+        for rc, out in results:
             flat = " ".join(out.split())
-            if "mism = []" in flat:
-                mism = []
-            else:
-                mism = flat
+            if rc != 0:
+                broken.append("correspondence file for C19 does not evaluate: " + out[-500:])
+                mism = None
+                break
+            if "mism = []" not in flat:
+                mism.append(flat)
                 broken.append("correspondence: regenerated Gallina definitions disagree with the compiled code on: " + flat[:600])
     run.coverage["evaluations"] = evaluations + corr_cases
     run.coverage["traces_validated_against_impl"] = corr_cases
